@@ -60,6 +60,7 @@ BUILTINS = {
     "ValueError": ["Exception"],
     "UnicodeError": ["ValueError"],
     "UnicodeDecodeError": ["UnicodeError"],
+    "UnicodeEncodeError": ["UnicodeError"],
     # foreign classes that handlers of nfcpy name
     "struct.error": ["Exception"],
     "ndef.DecodeError": ["Exception"],
@@ -305,6 +306,8 @@ class FnTranslator:
         self.unknown = []
         self.used_sites = []
         self.benign = []
+        self.dead_handlers = []   # `try` statements whose body has no site / raise: the handlers are unreachable in the analysis
+        self.occ = {}             # occurrence counters of operation keys (`expr:x[i]#2`: the second `x[i]` of the function)
 
     # ---- constructors
     def seq(self, items):
@@ -337,6 +340,9 @@ class FnTranslator:
         if isinstance(targets, str):
             targets = [targets]
         ids = {sp["id"] for sp in self.tr.specs}
+        # "A|B": method resolution order - the first of the alternatives that is a translated function
+        targets = [next((a for a in t.split("|") if a in ids), t) for t in targets]
+        targets = [t for i, t in enumerate(targets) if t not in targets[:i]]
         targets = [t for t in targets if t in ids] or targets      # dispatch lists name candidates
         r = None
         for t in reversed(targets):
@@ -416,7 +422,9 @@ class FnTranslator:
         if isinstance(node, ast.Subscript):
             out += self.effects(node.value)
             out += self.effects(node.slice)
-            for key in ("expr:" + ast.unparse(node), "item:" + ast.unparse(node.value)):
+            base = "expr:" + ast.unparse(node)
+            self.occ[base] = n = self.occ.get(base, 0) + 1
+            for key in ("%s#%d" % (base, n), base, "item:" + ast.unparse(node.value)):
                 if self.tr.is_op_key(key, self.spec):
                     r = self.classify(key, node)
                     if r != "skip":
@@ -638,6 +646,9 @@ class FnTranslator:
                 hs = "(Handlers.cons [%s] %s %s)" % (", ".join("Cls." + lean_ident(c) for c in classes), body, hs)
             r = self.block(s.body, ctx)
             if s.handlers:
+                if not any(tok in r for tok in ("(call ", "(raise ", "reraise", "(other ")):
+                    self.dead_handlers.append((s.lineno, ", ".join(ast.unparse(h.type) if h.type is not None else "*"
+                                                                   for h in s.handlers)))
                 r = "(tryExcept %s %s %s)" % (r, hs, self.block(s.orelse, ctx))
             elif s.orelse:   # pragma: no cover  (not valid Python)
                 return self.other(s)
@@ -942,10 +953,13 @@ class Config:
         "total_seconds", "difference", "union", "intersection", "issubset", "translate", "isdigit",
     }
     # other calls assumed not to raise: CRC helpers of nfc.clf.device.Device (pure), sleeping
-    BENIGN_KEYS = {"self.add_crc_a", "self.check_crc_a", "self.add_crc_b", "self.check_crc_b", "self.calculate_crc"}
+    BENIGN_KEYS = {"self.add_crc_a", "self.check_crc_a", "self.add_crc_b", "self.check_crc_b", "self.calculate_crc",
+                   # threading.Condition.wait with the lock held (every call is inside `with <the condition / its lock>`)
+                   "self.recv_ready.wait", "self.send_ready.wait", "self.send_token.wait", "self.acks_ready.wait",
+                   "self.resp.wait"}
     # context managers that do not swallow exceptions (locks, conditions)
     CONTEXT_MANAGERS = {"self.lock", "self.llc.lock", "lock", "self.send_ready", "self.recv_ready",
-                        "self.send_token", "self.recv_ready", "self.state.lock"}
+                        "self.send_token", "self.recv_ready", "self.state.lock", "self.acks_ready", "self.resp"}
 
     # primitive sites with one assumption everywhere
     GLOBAL_SITES = {
@@ -1246,7 +1260,8 @@ def _stack():
           sites={"self.mac.exchange": [COMM, OS], "pdu.encode": ["nfc.llcp.pdu.EncodeError"],
                  "pdu.decode": ["nfc.llcp.pdu.DecodeError"]}),
         F("llc.terminate", LLC, "LogicalLinkController.terminate",
-          sites={"self.mac.deactivate": [OS]}, benign=["pdu.Disconnect", "self.sap[i].shutdown"]),
+          sites={"self.mac.deactivate": [OS]}, benign=["pdu.Disconnect"],
+          links={"self.sap[i].shutdown": ["llc.SAP.shutdown", "llc.SD.shutdown"]}),
     ]
     run_sites = {"terminate": ["KeyboardInterrupt"],
                  "sec.cipher_suite": ["nfc.llcp.sec.KeyAgreementError"],
@@ -1350,14 +1365,196 @@ def _tag_ops():
     return funcs, cls_specs, prefix, scoped
 
 
+
+def _dep():
+    """nfc/dep.py: NFC-DEP Initiator and Target (C04, C07).  Layer boundary: `ContactlessFrontend.exchange` raises
+    `CommunicationError` subclasses (GLOBAL_SITES), `sense()` / `listen()` raise what the code itself anticipates:
+    `CommunicationError` subclasses or `UnsupportedTargetError` (the documented class of a single unsupported target).
+    `Props/ExcFlowDep.lean` re-states the theorems with `IOError` added at the three sites."""
+    DEP = "nfc.dep"
+    BOUNDARY = [COMM, "nfc.clf.UnsupportedTargetError"]
+    # constructors of the PDU classes (plain attribute assignments) and of the targets (literal bitrate strings)
+    ctors = ["ATR_REQ", "ATR_RES", "PSL_REQ", "PSL_RES", "DEP_REQ", "DEP_RES", "DSL_REQ", "DSL_RES", "RLS_REQ", "RLS_RES",
+             "DEP_REQ.PFB", "DEP_RES.PFB", "cls.PFB", "RES", "nfc.clf.RemoteTarget", "nfc.clf.LocalTarget"]
+    I, T = "dep.Initiator.", "dep.Target."
+    enc_req = ["dep.ATR_REQ.encode", "dep.PSL_REQ.encode", "dep.DEP_REQ_RES.encode", "dep.DSL_REQ_RES.encode"]
+    enc_res = ["dep.ATR_RES.encode", "dep.PSL_RES.encode", "dep.DEP_REQ_RES.encode", "dep.DSL_REQ_RES.encode"]
+    dec_res = ["dep.ATR_RES.decode", "dep.PSL_REQ_RES.decode", "dep.DEP_REQ_RES.decode", "dep.DSL_REQ_RES.decode"]
+    dec_req = ["dep.ATR_REQ.decode", "dep.PSL_REQ_RES.decode", "dep.DEP_REQ_RES.decode", "dep.DSL_REQ_RES.decode"]
+    L = "<locals>."
+    fs = [
+        # ---- Initiator
+        F(I + "activate", DEP, "Initiator.activate", sites={"self.clf.sense": BOUNDARY}, benign=ctors,
+          links={"atr_req.encode": "dep.ATR_REQ.encode", "ATR_RES.decode": "dep.ATR_RES.decode"}),
+        F(I + "deactivate", DEP, "Initiator.deactivate", benign=ctors),
+        F(I + "exchange", DEP, "Initiator.exchange",
+          links={"INF": I + "exchange.INF", "ACK": I + "exchange.ACK", "RTOX": I + "exchange.RTOX"}),
+        F(I + "exchange.INF", DEP, "Initiator.exchange." + L + "INF", benign=ctors),
+        F(I + "exchange.ACK", DEP, "Initiator.exchange." + L + "ACK", benign=ctors),
+        F(I + "exchange.RTOX", DEP, "Initiator.exchange." + L + "RTOX", benign=ctors),
+        F(I + "send_dep_req_recv_dep_res", DEP, "Initiator.send_dep_req_recv_dep_res",
+          links={"request_attention": I + "request_attention", "request_retransmission": I + "request_retransmission"}),
+        F(I + "NAK", DEP, "Initiator.send_dep_req_recv_dep_res." + L + "NAK", benign=ctors),
+        F(I + "ATN", DEP, "Initiator.send_dep_req_recv_dep_res." + L + "ATN", benign=ctors),
+        F(I + "request_attention", DEP, "Initiator.send_dep_req_recv_dep_res." + L + "request_attention",
+          links={"ATN": I + "ATN"}),
+        F(I + "request_retransmission", DEP, "Initiator.send_dep_req_recv_dep_res." + L + "request_retransmission",
+          links={"NAK": I + "NAK"}),
+        F(I + "send_req_recv_res", DEP, "Initiator.send_req_recv_res"),
+        F(I + "encode_frame", DEP, "Initiator.encode_frame", links={"packet.encode": enc_req}),
+        # `eval(<one of five literal names> + "_RES")`: evaluates to a class of this module
+        F(I + "decode_frame", DEP, "Initiator.decode_frame", benign=["eval"],
+          links={"eval(res_name[frame[1]] + '_RES').decode": dec_res}),
+        # ---- Target
+        F(T + "activate", DEP, "Target.activate", sites={"self.clf.listen": BOUNDARY}, benign=ctors + ["pow"],
+          links={"atr_res.encode": "dep.ATR_RES.encode", "ATR_REQ.decode": "dep.ATR_REQ.decode"}),
+        F(T + "deactivate", DEP, "Target.deactivate"),
+        F(T + "_deactivate", DEP, "Target._deactivate", benign=ctors,
+          links={"INF": T + "_deactivate.INF", "ATN": T + "_deactivate.ATN"}),
+        F(T + "_deactivate.INF", DEP, "Target._deactivate." + L + "INF", benign=ctors),
+        F(T + "_deactivate.ATN", DEP, "Target._deactivate." + L + "ATN", benign=ctors),
+        F(T + "exchange", DEP, "Target.exchange", links={"INF": T + "exchange.INF", "ACK": T + "exchange.ACK"}),
+        F(T + "exchange.INF", DEP, "Target.exchange." + L + "INF", benign=ctors),
+        F(T + "exchange.ACK", DEP, "Target.exchange." + L + "ACK", benign=ctors),
+        F(T + "send_timeout_extension", DEP, "Target.send_timeout_extension", links={"RTOX": T + "send_timeout_extension.RTOX"}),
+        F(T + "send_timeout_extension.RTOX", DEP, "Target.send_timeout_extension." + L + "RTOX", benign=ctors),
+        F(T + "send_dep_res_recv_dep_req", DEP, "Target.send_dep_res_recv_dep_req", benign=ctors,
+          links={"ATN": T + "send_dep_res_recv_dep_req.ATN"}),
+        F(T + "send_dep_res_recv_dep_req.ATN", DEP, "Target.send_dep_res_recv_dep_req." + L + "ATN", benign=ctors),
+        F(T + "send_res_recv_req", DEP, "Target.send_res_recv_req"),
+        F(T + "encode_frame", DEP, "Target.encode_frame", links={"packet.encode": enc_res}),
+        F(T + "decode_frame", DEP, "Target.decode_frame", benign=["eval"],
+          links={"eval(req_name[frame[1]] + '_REQ').decode": dec_req}),
+        # ---- protocol data units
+        F("dep.ATR_REQ.decode", DEP, "ATR_REQ.decode", decorated=True, benign=ctors),
+        F("dep.ATR_REQ.encode", DEP, "ATR_REQ.encode"),
+        F("dep.ATR_RES.decode", DEP, "ATR_RES.decode", decorated=True, benign=ctors),
+        F("dep.ATR_RES.encode", DEP, "ATR_RES.encode"),
+        # `cls(*data[2:])`: PSL_REQ takes three, PSL_RES one positional argument - any other count is a TypeError
+        F("dep.PSL_REQ_RES.decode", DEP, "PSL_REQ_RES.decode", decorated=True, sites={"cls": ["TypeError"]}),
+        F("dep.PSL_REQ.encode", DEP, "PSL_REQ.encode"),
+        F("dep.PSL_RES.encode", DEP, "PSL_RES.encode"),
+        # `data.pop(0)` on a bytearray that may be empty: IndexError (the handler turns it into ProtocolError)
+        F("dep.DEP_REQ_RES.decode", DEP, "DEP_REQ_RES.decode", decorated=True, sites={"data.pop": ["IndexError"]},
+          benign=["cls", "cls.PFB"]),
+        F("dep.DEP_REQ_RES.encode", DEP, "DEP_REQ_RES.encode"),
+        F("dep.DSL_REQ_RES.decode", DEP, "DSL_REQ_RES.decode", decorated=True, benign=["cls"]),
+        F("dep.DSL_REQ_RES.encode", DEP, "DSL_REQ_RES.encode"),
+    ]
+    return fs
+
+
+
+def _sock():
+    """LLCP socket API (C09, C17, C05): nfc/llcp/tco.py (the three socket kinds), the socket API of
+    LogicalLinkController with ServiceAccessPoint / ServiceDiscovery, nfc/llcp/socket.py, and collect / dispatch of the
+    link loop.  No layer boundary below: the only primitive sites are the data operations whose exception is part of
+    the mechanism (an empty deque, a full address range, a missing dictionary key, a service name that is not latin-1)."""
+    TCO, LLC, SOCK = "nfc.llcp.tco", "nfc.llcp.llc", "nfc.llcp.socket"
+    # constructors: PDU classes (plain attribute assignments; field ranges are checked by encode), sockets, SAPs
+    ctors = ["pdu.UnnumberedInformation", "pdu.ConnectionComplete", "pdu.Connect", "pdu.Information", "pdu.Disconnect",
+             "pdu.DisconnectedMode", "pdu.FrameReject.from_pdu", "pdu.ServiceNameLookup", "pdu.AggregatedFrame", "ACK",
+             "DataLinkConnection", "tco.RawAccessPoint", "tco.LogicalDataLink", "tco.DataLinkConnection",
+             "ServiceAccessPoint", "pdu_type"]
+    cls_specs, prefix, funcs = [], {}, []
+    skip = {"__init__", "__str__"}
+    # an empty deque: `popleft()` raises IndexError - this is how a blocked recv()/accept()/connect() learns that the
+    # socket was closed (close() clears the queue and notifies)
+    tco_per = {"recv": {"sites": {"self.recv_queue.popleft": ["IndexError"]}},
+               "dequeue": {"sites": {"self.send_queue.popleft": ["IndexError"]}}}
+    cls_specs.append(("tco.TCO", TCO, "TransmissionControlObject", {"exclude": skip, "per": tco_per, "kw": {"benign": ctors}}))
+    prefix[(TCO, "TransmissionControlObject")] = [("self.", ["tco.TCO"])]
+    # a str destination that is not latin-1: `.encode('latin')` raises UnicodeEncodeError
+    ENC = {"name.encode": ["UnicodeEncodeError"], "addr_or_name.encode": ["UnicodeEncodeError"], "dest.encode": ["UnicodeEncodeError"]}
+    for idp, cls in (("tco.RAW", "RawAccessPoint"), ("tco.LDL", "LogicalDataLink"), ("tco.DLC", "DataLinkConnection")):
+        per = {}
+        for m in ("setsockopt", "getsockopt", "poll", "send", "recv", "close", "enqueue", "dequeue"):
+            per[m] = {"links": {"super(%s, self).%s" % (cls, m): "tco.TCO." + m}}
+        # `poll = super(C, self).poll; poll(event, timeout)`
+        per["poll"]["links"]["poll"] = "tco.TCO.poll"
+        for m, sup in (("sendto", "send"), ("recvfrom", "recv"), ("accept", "recv"), ("connect", "recv"), ("_poll", "poll"),
+                       ("_enqueue_state_established", "enqueue")):
+            per[m] = {"links": {"super(%s, self).%s" % (cls, sup): "tco.TCO." + sup}}
+        per["close"]["links"]["super(%s, self).recv" % cls] = "tco.TCO.recv"     # DataLinkConnection.close waits for the DM
+        per["connect"]["sites"] = ENC
+        cls_specs.append((idp, TCO, cls, {"exclude": skip, "per": per, "kw": {"benign": ctors}}))
+        prefix[(TCO, cls)] = [("self.", [idp, "tco.TCO"])]
+    # `socket.<m>(...)` on a socket of any of the three kinds: the method each kind resolves to
+    any_kind = lambda m: ["tco.RAW.%s|tco.TCO.%s" % (m, m), "tco.LDL.%s|tco.TCO.%s" % (m, m), "tco.DLC.%s|tco.TCO.%s" % (m, m)]
+    # ---- service access points
+    cls_specs.append(("llc.SAP", LLC, "ServiceAccessPoint",
+                      {"exclude": skip,
+                       # empty deques / a socket that is not in the list: the handlers next to these calls are the mechanism
+                       "per": {"dequeue": {"sites": {"self.send_list.popleft": ["IndexError"]}},
+                               "shutdown": {"sites": {"self.sock_list.pop": ["IndexError"]}},
+                               "remove_socket": {"sites": {"self.sock_list.remove": ["ValueError"]}},
+                               "insert_socket": {"sites": {"expr:self.sock_list[0]": ["IndexError"]}}},
+                       "kw": {"benign": ctors,
+                              "links": {"socket.bind": any_kind("bind"), "socket.close": any_kind("close"),
+                                        "socket.enqueue": any_kind("enqueue"), "socket.dequeue": any_kind("dequeue"),
+                                        # called for SAPs in DATA_LINK_CONNECTION mode only (collect)
+                                        "socket.sendack": "tco.DLC.sendack", "self.send": "llc.SAP.send"}}}))
+    cls_specs.append(("llc.SD", LLC, "ServiceDiscovery",
+                      {"exclude": skip, "kw": {"benign": ctors},
+                       "per": {"resolve": {"sites": {"random.choice": ["IndexError"],      # all 256 transaction identifiers in use
+                                                     "expr:self.snl[name]#1": ["KeyError"]}},   # the name is not yet resolved
+                               "enqueue": {"sites": {"expr:self.sent[tid]": ["KeyError"], "expr:self.llc.snl[name]": ["KeyError"]}},
+                               "dequeue": {"sites": {"self.sdres.popleft": ["IndexError"]}, "benign": ctors + ["self.sdreq.rotate"]}}}))
+    saps = lambda m: ["llc.SAP." + m, "llc.SD." + m]
+    # ---- the socket API of the link controller
+    api = {"socket.setsockopt": any_kind("setsockopt"), "socket.getsockopt": any_kind("getsockopt"),
+           "socket.bind": any_kind("bind"), "socket.poll": any_kind("poll"), "socket.close": any_kind("close"),
+           "socket.connect": ["tco.LDL.connect", "tco.DLC.connect"],
+           # each of the following calls is guarded by an isinstance test of the socket kind in the same function
+           "socket.listen": "tco.DLC.listen", "socket.accept": "tco.DLC.accept", "socket.send": ["tco.RAW.send", "tco.DLC.send"],
+           "socket.sendto": "tco.LDL.sendto", "socket.recv": ["tco.RAW.recv", "tco.DLC.recv"], "socket.recvfrom": "tco.LDL.recvfrom",
+           "sap.resolve": "llc.SD.resolve", "sap.insert_socket": "llc.SAP.insert_socket",
+           "sap.remove_socket": "llc.SAP.remove_socket", "self.sap[addr].insert_socket": "llc.SAP.insert_socket",
+           "client.bind": "tco.TCO.bind", "client.close": "tco.DLC.close"}
+    only = {"resolve", "socket", "setsockopt", "getsockopt", "bind", "_bind", "_bind_by_none", "_bind_by_addr", "_bind_by_name",
+            "connect", "listen", "accept", "send", "sendto", "recv", "recvfrom", "poll", "close", "getsockname", "getpeername"}
+    nobind = {"links": dict(api, **{"self.bind": "llc.bind.none"})}      # `self.bind(socket)`: no address or name
+    per = {"resolve": {"sites": ENC}, "_bind": {"sites": ENC},
+           # no free address: `list.index(None)` raises ValueError (mapped to EAGAIN / EADDRNOTAVAIL)
+           "_bind_by_none": {"sites": {"self.sap[32:64].index": ["ValueError"]}},
+           "_bind_by_name": {"sites": {"self.sap[16:32].index": ["ValueError"]}, "benign": ctors + ["service_name_format.match"]},
+           "connect": nobind, "listen": nobind, "sendto": nobind}
+    cls_specs.append(("llc", LLC, "LogicalLinkController", {"only": only, "per": per, "kw": {"benign": ctors, "links": api}}))
+    funcs += [
+        F("llc.bind.none", LLC, "LogicalLinkController.bind", links={"self._bind": "llc._bind.none"}),
+        F("llc._bind.none", LLC, "LogicalLinkController._bind", when={"addr_or_name is None": True}),
+    ]
+    # ---- collect / dispatch of the link loop
+    sec_sites = {"self.sec.encrypt": ["nfc.llcp.sec.EncryptionError"], "self.sec.decrypt": ["nfc.llcp.sec.DecryptionError"],
+                 # re-coding of the header of a UI / I PDU around the cipher
+                 "send_pdu.encode_header": ["nfc.llcp.pdu.EncodeError"], "rcvd_pdu.encode_header": ["nfc.llcp.pdu.EncodeError"],
+                 "pdu_type.decode_header": ["nfc.llcp.pdu.DecodeError"]}
+    funcs += [
+        F("llc.collect", LLC, "LogicalLinkController.collect", benign=ctors + ["agf_pdu.append"],
+          links={"encrypt": "llc.collect.encrypt", "sap.dequeue": saps("dequeue"), "sap.sendack": "llc.SAP.sendack"}),
+        F("llc.collect.encrypt", LLC, "LogicalLinkController.collect.<locals>.encrypt", sites=sec_sites, benign=ctors),
+        # an AGF PDU is never nested (pdu.decode refuses it): the inner call is the copy with the AGF branch cut
+        F("llc.dispatch", LLC, "LogicalLinkController.dispatch", sites=sec_sites, benign=ctors,
+          links={"self.dispatch": "llc.dispatch.inner", "sap.enqueue": saps("enqueue")}),
+        F("llc.dispatch.inner", LLC, "LogicalLinkController.dispatch", when={"rcvd_pdu.name == 'AGF'": False},
+          sites=sec_sites, benign=ctors, links={"sap.enqueue": saps("enqueue")}),
+    ]
+    # ---- nfc.llcp.Socket
+    cls_specs.append(("sock.Socket", SOCK, "Socket", {"exclude": {"__str__"}, "kw": {"links": {"Socket": "sock.Socket.__init__",
+                                                                                                 "llc.socket": "llc.socket"}}}))
+    prefix[(SOCK, "Socket")] = [("self.llc.", ["llc"])]
+    return funcs, cls_specs, prefix
+
+
 Config.FUNCS = _tags()
 _f, _c, _p = _drivers()
 Config.FUNCS = Config.FUNCS + _f + _stack()
 _f2, _c2, _p2, _s2 = _tag_ops()
 Config.SCOPED_LINKS = _s2
-Config.FUNCS = Config.FUNCS + _f2
-Config.CLASS_SPECS = _c + _c2
-Config.PREFIX_LINKS = dict(list(_p.items()) + list(_p2.items()))
+_f3, _c3, _p3 = _sock()
+Config.FUNCS = Config.FUNCS + _f2 + _dep() + _f3
+Config.CLASS_SPECS = _c + _c2 + _c3
+Config.PREFIX_LINKS = dict(list(_p.items()) + list(_p2.items()) + list(_p3.items()))
 # abstract methods that every concrete driver overrides: not a dispatch target
 Config.ABSTRACT = {"pn53x.Chipset._read_register", "pn53x.Chipset._write_register"}
 Config.GLOBAL_SITES.update({
@@ -1383,6 +1580,8 @@ if __name__ == "__main__":
                                                                    len(ft.others), len(ft.unknown)))
         for o in ft.others:
             print("    OTHER   line %d: %s" % o)
+        for o in ft.dead_handlers:
+            print("    DEAD-HANDLER line %d: except %s (no site in the try body)" % o)
         for u in ft.unknown:
             print("    UNKNOWN line %d: %s" % u)
         if verbose:
